@@ -35,7 +35,7 @@ const creds = "Proxy-Authorization: Basic dTpw\r\n" // u:p
 
 var kindNames = []string{"ok", "denied-403", "unauthenticated-407", "dial-error", "origin-reset-mid-body", "connect-client-closes-first",
 	"connect-target-closes-first", "upgrade", "mitm-inner-request", "rejected-upstream-connect", "client-abort-uploading", "client-abort-downloading",
-	"head", "post", "connect-client-aborts-while-dialling", "upgrade-client-aborts-before-101", "client-abort-before-response", "overlapping-same-request-id"}
+	"head", "post", "connect-client-aborts-while-dialling", "upgrade-client-aborts-before-101", "client-abort-before-response", "overlapping-same-request-id", "ok-via-connect-to", "upgrade-connection-close"}
 
 type ledger struct {
 	totals map[string]int // "code,method" -> count; code "*" = any code
@@ -99,6 +99,20 @@ func (s *st) exchange(kind string, c *world.Peer) *world.Peer {
 		return s.sent[c]
 	}
 	switch kind {
+	case "ok-via-connect-to":
+		// --connect-to maps redirected.test:80 to ok.test:80: the socket is opened to (and counted for) ok.test
+		h := s.hop("ok.test:80", nil)
+		c.Send([]byte("GET http://redirected.test/ HTTP/1.1\r\nHost: redirected.test\r\nConnection: close\r\n" + creds + "\r\n"))
+		msgs, conns, _ := h.Next()
+		if len(msgs) != 1 {
+			x.Failf("harness/exchange", "%s not forwarded: %q", kind, world.Clip(c.Recv()))
+			return nil
+		}
+		h.Conns[conns[0]].Send([]byte("HTTP/1.1 200 OK\r\nContent-Length: 2\r\nConnection: close\r\n\r\nok"))
+		h.Conns[conns[0]].Close()
+		expectStatus(c, methods("GET"), 200)
+		s.count(200, "GET")
+		return nil
 	case "ok", "head", "post":
 		h := s.hop("ok.test:80", nil)
 		m := map[string]string{"ok": "GET", "head": "HEAD", "post": "POST"}[kind]
@@ -173,9 +187,13 @@ func (s *st) exchange(kind string, c *world.Peer) *world.Peer {
 		t.Close()
 		s.count(200, "CONNECT")
 		return nil
-	case "upgrade":
+	case "upgrade", "upgrade-connection-close":
 		h := s.hop("ws.test:80", nil)
-		c.Send([]byte("GET http://ws.test/ws HTTP/1.1\r\nHost: ws.test\r\nConnection: Upgrade\r\nUpgrade: websocket\r\n" + creds + "\r\n"))
+		conn := "Upgrade"
+		if kind == "upgrade-connection-close" {
+			conn = "Upgrade, close"
+		}
+		c.Send([]byte("GET http://ws.test/ws HTTP/1.1\r\nHost: ws.test\r\nConnection: " + conn + "\r\nUpgrade: websocket\r\n" + creds + "\r\n"))
 		msgs, conns, _ := h.Next()
 		if len(msgs) != 1 {
 			x.Failf("harness/exchange", "upgrade not forwarded: %q", world.Clip(c.Recv()))
@@ -467,6 +485,7 @@ func scenario(x *explore.X, maxLen int) {
 		MITMDomains:    []string{`^mitm(-viaup)?\.test$`},
 		PAC:            `function FindProxyForURL(url, host) { if (host == "mitm-viaup.test") return "PROXY up.test:8080"; return "DIRECT"; }`,
 		TransportCAPEM: s.pki.CAPEM,
+		ConnectTo:      []string{"redirected.test:80:ok.test:80"},
 	}
 	w, err := world.Start(opts)
 	if err != nil {
@@ -644,7 +663,7 @@ func apiScenario(x *explore.X) {
 
 func TestC13(t *testing.T) {
 	s := explore.NewSuite(t, "C13", "model_checking",
-		"(sequences) every sequence of 1-2 (quick) / 1-3 (thorough) exchanges over 18 kinds (two exchanges overlapping on two connections with the same X-Request-Id, ok, HEAD, POST, 403, 407, dial error, origin reset mid-body, CONNECT torn down client-first / target-first, Upgrade, MITM hand-off + inner request, rejected upstream CONNECT inside MITM, client abort while uploading / downloading / before the response, client abort while the proxy is still dialling the CONNECT target (the tunnel-establishing 200 cannot be written), client abort before the 101 of an Upgrade) on the same or a new client connection, against one proxy configured with basic auth, deny-domains, mitm-domains and a PAC-selected upstream; states = quiescent points between exchanges (and inside tunnels), at each the real Prometheus registry is gathered: in-flight gauge = requests in progress, requests_total = exactly one per request read under the status sent, listener/dialer active gauges = sockets the proxy actually holds (from the simulated network), all gauges zero at the end; (api) Listener/Dialer with traffic tracking: every sequence of <= 3 operations (Write, Read, io.Copy in/out, a Write cut short by a stalled and then resetting peer, io.Copy from a source that fails after n bytes) x sizes, Observer rx/tx = bytes moved, then 1-3 Close calls: active gauge drops exactly once; (concurrent-close) 2-3 threads closing one tracked connection under a controlled scheduler, OnClose exactly once")
+		"(sequences) every sequence of 1-2 (quick) / 1-3 (thorough) exchanges over 20 kinds (an Upgrade whose request also says Connection: close, a request whose connection is redirected by --connect-to to another host, two exchanges overlapping on two connections with the same X-Request-Id, ok, HEAD, POST, 403, 407, dial error, origin reset mid-body, CONNECT torn down client-first / target-first, Upgrade, MITM hand-off + inner request, rejected upstream CONNECT inside MITM, client abort while uploading / downloading / before the response, client abort while the proxy is still dialling the CONNECT target (the tunnel-establishing 200 cannot be written), client abort before the 101 of an Upgrade) on the same or a new client connection, against one proxy configured with basic auth, deny-domains, mitm-domains and a PAC-selected upstream; states = quiescent points between exchanges (and inside tunnels), at each the real Prometheus registry is gathered: in-flight gauge = requests in progress, requests_total = exactly one per request read under the status sent, listener/dialer active gauges = sockets the proxy actually holds (from the simulated network), all gauges zero at the end; (api) Listener/Dialer with traffic tracking: every sequence of <= 3 operations (Write, Read, io.Copy in/out, a Write cut short by a stalled and then resetting peer, io.Copy from a source that fails after n bytes) x sizes, Observer rx/tx = bytes moved, then 1-3 Close calls: active gauge drops exactly once; (concurrent-close) 2-3 threads closing one tracked connection under a controlled scheduler, OnClose exactly once")
 	s.Assume = []string{"simnet is the ground truth for which sockets are open", "status of a response to a client that has vanished is unknowable; for those only 'exactly one completion' is required", "(concurrent-close) conntrack's sync.Once / atomics are redirected at build time to a cooperative scheduler: all interleavings of 2-3 concurrent Close calls (and a reader) with at most 2 (quick) / 3 (thorough) preemptions"}
 	for _, tier := range []string{"quick", "thorough"} {
 		l := map[string]int{"quick": 2, "thorough": 3}[tier]
